@@ -777,6 +777,15 @@ func c10Sweeps(tier string) []c10In {
 		{Core: true, Ops: []c10Op{inst, newr, newr, {Kind: "revert"}, {Kind: "revert"}, {Kind: "refresh", Rev: 2}}},
 		{Core: true, Ops: []c10Op{{Kind: "retain", Rev: 5}, inst, newr, newr, newr, {Kind: "revert-to", Rev: 1, Flags: c10NotBlocked},
 			sw(c10Op{Kind: "refresh", Rev: 3})}},
+		// C11: nothing is left of a removed snap, also when its revisions have saved configuration snapshots
+		// (revision-config): config set, refresh (snapshot of 1), revert (snapshot of 2, current 1 has one), remove
+		{Ops: []c10Op{inst, {Kind: "setcfg", Rev: 5}, newr, {Kind: "revert"}, {Kind: "remove"}}},
+		// ... config written by the configure hook; remove --revision of revisions with snapshots, the last one removes the snap;
+		// then the same revision is installed again, refreshed and reverted
+		{Core: true, Ops: []c10Op{{Kind: "install", Rev: 1, Chan: 1, Flags: hook}, newr, newr, {Kind: "revert-to", Rev: 1},
+			{Kind: "remove-rev", Rev: 3}, {Kind: "remove-rev", Rev: 2}, {Kind: "disable"}, {Kind: "remove-rev", Rev: 1},
+			inst, newr, {Kind: "revert"}}},
+		{Ops: []c10Op{inst, {Kind: "setcfg", Rev: 6}, newr, {Kind: "revert"}, {Kind: "disable"}, {Kind: "remove"}}},
 		// C11: remove --revision of a disabled snap: the current one when it is not the last kept one (after a revert), a
 		// non-current one, then the current one again, enable
 		{Core: true, Ops: []c10Op{inst, newr, newr, {Kind: "revert"}, {Kind: "disable"}, {Kind: "remove-rev", Rev: 2},
@@ -842,6 +851,9 @@ func c10Gen(r *vh.Rand, tier string, n int) []c10In {
 	// refresh to one of the revisions after the current one
 	for i := 0; i < (n+2)/3; i++ {
 		in := c10In{Core: true, Ops: []c10Op{{Kind: "retain", Rev: r.Range(3, 5)}, {Kind: "install", Rev: 1, Chan: 1}}}
+		if r.Chance(2, 3) { // with configuration, so that the reverts below leave revision-config snapshots
+			in.Ops = append(in.Ops, c10Op{Kind: "setcfg", Rev: r.Range(1, 9)})
+		}
 		for j, m := 0, r.Range(2, 4); j < m; j++ {
 			in.Ops = append(in.Ops, c10Op{Kind: "refresh"})
 		}
@@ -860,6 +872,9 @@ func c10Gen(r *vh.Rand, tier string, n int) []c10In {
 				op.Fail = r.Range(1, 40)
 			}
 			in.Ops = append(in.Ops, op)
+		}
+		if r.Chance(1, 2) { // the whole snap goes: nothing may be left, snapshots included
+			in.Ops = append(in.Ops, c10Op{Kind: "remove"})
 		}
 		ins = append(ins, in)
 	}
